@@ -33,6 +33,7 @@ type scenario struct {
 	Reg      string `json:"reg"`
 	FailAt   int    `json:"failAt"`
 	RepFails int    `json:"repfails"`
+	Then     string `json:"then"` // explicit mode: a second statement that matches no row ("upd0", "del0"), or "none"
 }
 
 func env(name, def string) string {
@@ -84,6 +85,9 @@ func main() {
 			warmed[schema.Name] = true
 		}
 		cls := fmt.Sprintf("schema=%s,mode=%s,kind=%s,rows=%d,reg=%s,failAt=%d,repfails=%d", schema.Name, sc.Mode, sc.Kind, sc.Rows, sc.Reg, sc.FailAt, sc.RepFails)
+		if sc.Then != "" && sc.Then != "none" {
+			cls += ",then=" + sc.Then
+		}
 		t := w.Begin(map[string]interface{}{"i": i, "sc": sc, "schema": schema.Name}, cls)
 		run(lab, t, sc, schema, style)
 		t.Close()
@@ -174,7 +178,16 @@ func run(lab *atlab.Lab, t *trace.T, sc scenario, schema *atlab.Schema, style at
 				callErr = err
 				_ = tx.Rollback() // what an application does with a failed statement
 			} else {
-				callErr = tx.Commit()
+				if sc.Then == "upd0" || sc.Then == "del0" {
+					q2, a2 := schema.SQL(atlab.Stmt{Kind: sc.Then[:3], Keys: []int{}, W: 2}, style)
+					if _, err := tx.ExecContext(ctx, q2, a2...); err != nil {
+						callErr = err
+						_ = tx.Rollback()
+					}
+				}
+				if callErr == nil {
+					callErr = tx.Commit()
+				}
 			}
 		}
 		lab.Srv.ClearFaults()
